@@ -39,11 +39,12 @@ Apply(e, op, k, v) ==
     [] op = "walk" -> Res(e, TRUE, 0, Len(e), Look(e))
     [] op = "walkname" -> LET m == Filter(Look(e), k) IN Res(e, TRUE, 0, Len(m), m)
     [] op = "size" -> Res(e, TRUE, 0, Len(e), <<>>)
+    [] op = "debug" -> Res(e, TRUE, 0, 0, <<>>)
     [] op = "sort" -> Res(StableSort(e), TRUE, 0, 0, <<>>)
     [] op = "clear" -> Res(<<>>, TRUE, 0, 0, <<>>)
     [] op = "saveload" -> Res(e, TRUE, 0, Len(e), e)      \* save, load into a fresh table with the same options: same entries, count reported
 KeyOps == {"get", "getmulti", "remove", "rmwalk", "walkname"}
-NoArg == {"walk", "size", "sort", "clear", "saveload"}
+NoArg == {"walk", "size", "sort", "clear", "saveload", "debug"}
 Allocating == {"put", "get", "getmulti", "walk", "walkname", "saveload"}
 Init == ents = <<>> /\ lastOp = [op |-> "init", k |-> 0, v |-> 0]
 Do(op, k, v) == /\ (op = "put" => Len(ents) < MaxLen)
